@@ -602,9 +602,37 @@ def run(ctx):
             if probs:
                 ctx.violation("cli", f"`nuspacesim run` {argv}: the results file does not describe the run: " + "; ".join(probs), wit)
             ctx.distinct.add(("cli", tuple(argv), os.path.basename(out)))
+        # ---- "stored results can always be reloaded for plotting": the show-plot command on the files of
+        #      a two-channel, a radio-only and an optical-only run (no plot selected, and one stage plot)
+        os.environ.setdefault("MPLBACKEND", "Agg")
+        for label_, opt_on, rad_on in (("both channels", True, True), ("radio only", False, True), ("optical only", True, False), ("no surviving trajectory", True, True)):
+            cfg = NssConfig()
+            cfg.simulation.thrown_events = 120 if label_ != "no surviving trajectory" else 0
+            cfg.detector.optical.enable, cfg.detector.radio.enable = opt_on, rad_on
+            cfg.detector.radio.snr_threshold = 0.25
+            sim, log = fullrun.compute(cfg, seed=77, freeze=False)
+            if log.exception is not None or sim is None or (len(sim) == 0) != (label_ == "no surviving trajectory"):
+                ctx.inconclusive_because(f"no results table for the {label_} run of the reload monitor")
+                continue
+            fpath = os.path.join(work, "reload.fits")
+            if os.path.exists(fpath):
+                os.remove(fpath)
+            sim.write(fpath, format="fits", overwrite=True)
+            for argv_ in ([], ["-p", "taus_overview"]):
+                ctx.count("reload-for-plotting")
+                try:
+                    import matplotlib.pyplot as _plt
+
+                    with contextlib.redirect_stdout(io.StringIO()):
+                        res = runner.invoke(cli, ["show-plot", fpath] + argv_)
+                    _plt.close("all")
+                    if res.exit_code != 0:
+                        ctx.violation("reload", f"`nuspacesim show-plot` {argv_} on the results file of a {label_} run: exit code {res.exit_code} ({res.exception!r})", {"run": label_, "argv": argv_})
+                except Exception as e:
+                    ctx.exception("reload", f"show-plot on the results file of a {label_} run raised", e, {"run": label_})
     finally:
         shutil.rmtree(work, ignore_errors=True)
-    for m in ("none-section", "hostile-strings", "empty-runs", "numpy-scalars", "columns", "header", "complete", "reconstruct", "real-runs", "cli-run"):
+    for m in ("reload-for-plotting", "none-section", "hostile-strings", "empty-runs", "numpy-scalars", "columns", "header", "complete", "reconstruct", "real-runs", "cli-run"):
         ctx.require(m)
     return ctx.finish(
         rule="tables = results_table.init(config) + synthetic columns of every stored dtype (float64, float32, int64, 2-D EFields, Time) for seeded configurations (ASCII strings, finite numbers, both spectrum types, all cloud variants, lat != lon), one third with 17-significant-digit floats and two thirds with short-text floats (for which everything must be exact), plus tables returned by real small compute() runs in both modes; a case is a distinct (configuration, table)",
